@@ -263,14 +263,6 @@ func (r *Run) runHistory(idx int, next func(p *Pool, step int) (Op, bool), onTai
 		if f, okf := fitsOracle(o, cause); okf {
 			line += " " + strconv.FormatInt(f, 10)
 		}
-		if o.Name == "Assign" {
-			// the value check of the attribute is an oracle of the model
-			if out.Err != nil && wrap == "AttributeValue" {
-				line += " " + cause
-			} else {
-				line += " -"
-			}
-		}
 		r.emitOp(o, line)
 		if modelled(o.Name) {
 			fmt.Fprintf(r.trace, "R %s\n", res)
@@ -407,7 +399,7 @@ func main() {
 					o.A = o.A[:n]
 				}
 			}
-			if o.Name == "Assign" && len(o.A) > 3 {
+			if o.Name == "Assign" && len(o.A) > 3 { // traces written before the value check was modelled carry a fourth token
 				o.A = o.A[:3]
 			}
 			ops = append(ops, o)
